@@ -303,9 +303,74 @@ def make_case(r, rules, from_path, anchor, tier):
     return c
 
 
+def type_fmt_case(r):
+    """the formatter of type-like conditions on a list of single conditions: those of the property's domain
+    (must give a text) and, for the correspondence, any other DSL condition (same outcome as the model)"""
+    import enc
+    from gen import Gen
+    from valida.schema import format_map_key_value_data_type_conditions as fmt
+    import valida.conditions as C
+    types = [int, str, dict, list, float, bool]
+    leaves = []
+    domain = True
+    for _ in range(r.choice([1, 1, 2, 3])):
+        x = r.random()
+        if x < 0.15:
+            ts = r.sample(types, r.choice([1, 2, 3]))
+            fn = r.choice(["is_instance", "keys_is_instance"])
+            leaves.append((f"Value.{fn}(" + ", ".join(t.__name__ for t in ts) + ")", getattr(C.Value, fn)(*ts)))
+        elif x < 0.3:
+            cls = r.choice(["ValueDataType", "KeyDataType"])
+            t = r.choice(types + [type(None), tuple])
+            leaves.append((f"{cls}.equal_to({t.__name__})", getattr(C, cls).equal_to(t)))
+        elif x < 0.4:
+            cls = r.choice(["ValueDataType", "KeyDataType"])
+            ts = r.sample(types, r.choice([0, 1, 2]))
+            leaves.append((f"{cls}.in_([" + ", ".join(t.__name__ for t in ts) + "])", getattr(C, cls).in_(ts)))
+        elif x < 0.6:
+            fn = r.choice(["equal_to", "in_", "greater_than", "less_than_or_equal_to", "not_equal_to", "in_range", "equal_to_approx"])
+            if fn == "in_":
+                args = [[r.randrange(-2, 9) for _ in range(r.choice([0, 1, 3]))]]
+            elif fn == "in_range":
+                args = [r.randrange(0, 3), r.randrange(3, 9)]
+            else:
+                args = [r.choice([0, 1, 2, 5, -1, 10 ** 20])]
+            leaves.append((f"ValueLength.{fn}(" + ", ".join(repr(a) for a in args) + ")", getattr(C.ValueLength, fn)(*args)))
+        elif x < 0.75:
+            arg = r.choice([[1, "x"], ["a", "<b>", "it's"], [True, None, -3], [], ['q"', "a\\b\n"]])
+            leaves.append((f"Value.in_({arg!r})", C.Value.in_(arg)))
+        else:
+            # outside the domain: any DSL condition, any arguments (floats, containers, non-iterables …)
+            domain = False
+            g = Gen(r, pct_strings=False, max_depth=2)
+            cls, ctor, args, kwargs = g.dsl_call(r.choice(g.CLASSES), None, hostile_p=0.1)
+            o = enc.outcome(lambda: getattr(getattr(C, cls), ctor)(*args, **kwargs))
+            if o[0] != "ok":
+                continue
+            import terms
+            leaves.append((terms.tree_py(("leaf", cls, ctor, list(args), dict(kwargs))), o[1]))
+    if not leaves:
+        return None
+    c = Case("type_fmt", {"conditions": [e for e, _ in leaves]})
+    c.py = ("from valida.conditions import *\nfrom valida.schema import format_map_key_value_data_type_conditions as fmt\nimport pathlib\n"
+            f"print(repr(fmt([{', '.join(e for e, _ in leaves)}])))")
+    impl = enc.outcome(lambda: fmt([o for _, o in leaves]))
+    c.ask(["type_fmt", [enc.enc_cond(o) for _, o in leaves]], impl, "type_fmt")
+    if domain and (impl[0] != "ok" or not isinstance(impl[1], str)):
+        c.fail("type_text", f"formatting type-like conditions of the domain gave {impl!r:.200}")
+    c.nontrivial = True
+    c.features.add(("type_fmt", domain, min(len(leaves), 3)))
+    return c
+
+
 def generate(rng, n, tier):
     cases = []
     while len(cases) < n:
+        if rng.random() < 0.15:
+            c = type_fmt_case(rng)
+            if c is not None:
+                cases.append(c)
+            continue
         rules = gen_schema(rng, tier)
         # a sub-tree root: the path of some rule (as plain keys / part objects), or the whole tree
         from_path = []
